@@ -64,6 +64,7 @@ props! {
     "C11" => c11,
     "C12" => c12,
     "C13" => c13,
+    "C14" => c14,
     "C16" => c16,
     "C17" => c17,
     "C18" => c18,
